@@ -950,7 +950,14 @@ func (p *pipeGen) prefetchCase() {
 	}
 	first := p.id + 1
 	p.id += 4
-	p.op("pipe drain %d", first)
+	if r.Chance(1, 3) {
+		// the refresh comes back answering another question (rewriting / hostile upstream), or the same one respelled
+		m, _ := mutate(r, g, p.cycle([]string{"byte", "type", "class", "case", "child", "parent"}))
+		p.op("pipe drain %d rq=%s,%d,%d", first, nameTok(m.ls), m.qtype, m.class)
+		p.getAll(m, netip.Prefix{})
+	} else {
+		p.op("pipe drain %d", first)
+	}
 	p.getAll(g, netip.Prefix{})
 	p.getAll(twin, netip.Prefix{})
 	p.op("pipe drain %d", p.nextID())
@@ -965,13 +972,27 @@ func (p *pipeGen) admitCase() {
 	p.ecs = !r.Chance(1, 8)
 	cfgs := [][4]int{{24, 56, 24, 56}, {24, 56, 24, 48}, {32, 128, 24, 48}, {32, 128, 32, 128}, {24, 56, 16, 32},
 		{24, 56, 32, 64}, {32, 64, 20, 40}, {32, 128, 8, 16}, {24, 48, 24, 24}, {16, 56, 16, 56},
-		{32, 128, 24, 16}, {24, 56, 24, 8}, {32, 32, 28, 20}} // floors of one family below the other's
+		{32, 128, 24, 16}, {24, 56, 24, 8}, {32, 32, 28, 20}, // floors of one family below the other's
+		{0, 0, 0, 0}, {0, 0, 16, 32}, {32, 128, 0, 0}, {0, 64, 0, 40}} // zeros: ecs.Build's defaults
 	cf := vlib.Pick(r, cfgs)
 	p.op("pipe new %s %d,%d,%d,%d,0", map[bool]string{true: "on", false: "off"}[p.ecs], cf[0], cf[1], cf[2], cf[3])
 	v6 := r.Chance(1, 2)
-	fwd, floor, full := cf[0], cf[2], 32
+	eff := cf
+	if eff[0] == 0 {
+		eff[0] = 24
+	}
+	if eff[1] == 0 {
+		eff[1] = 56
+	}
+	if eff[2] == 0 {
+		eff[2] = eff[0]
+	}
+	if eff[3] == 0 {
+		eff[3] = eff[1]
+	}
+	fwd, floor, full := eff[0], eff[2], 32
 	if v6 {
-		fwd, floor, full = cf[1], cf[3], 128
+		fwd, floor, full = eff[1], eff[3], 128
 	}
 	g := genGid(r)
 	g.scope = netip.Prefix{}
@@ -1009,6 +1030,14 @@ func (p *pipeGen) admitCase() {
 	if r.Chance(1, 12) {
 		flip = " flipcd"
 	}
+	// the response OPT around the ECS option: cookie / NSID / EDE / padding before or after it, or no ECS option at all
+	if r.Chance(1, 2) {
+		flip += " opt=" + vlib.Pick(r, []string{"cS", "nS", "eS", "pS", "Sc", "Se", "cnS", "cSe", "pcnS", "c", "e", "S"})
+	}
+	if r.Chance(1, 10) {
+		m, _ := mutate(r, g, []string{"byte", "type", "class", "case"})
+		flip += fmt.Sprintf(" rq=%s,%d,%d", nameTok(m.ls), m.qtype, m.class)
+	}
 	p.op("pipe ask %s %s %s %d %s%s", route(), q(g), fmtScope(a), p.nextID(), sbTok, flip)
 	if echo != a {
 		// clients around the subnet the authority named
@@ -1020,7 +1049,7 @@ func (p *pipeGen) admitCase() {
 	allowed := min(max(sb, 0), src, floor)
 	others := []netip.Prefix{a, withBits(a, full)}
 	// just outside: one bit inside the allowed prefix differs (last bit, a bit past the OTHER family's floor, a random one)
-	for _, bit := range []int{allowed - 1, cf[2], cf[2] - 1, cf[3] - 1, 24, 23, src - 1, floor - 1, r.Intn(full)} {
+	for _, bit := range []int{allowed - 1, eff[2], eff[2] - 1, eff[3] - 1, 24, 23, src - 1, floor - 1, r.Intn(full)} {
 		if bit >= 0 && bit < full {
 			others = append(others, withBits(flipBit(a, bit), vlib.Pick(r, []int{a.Bits(), full, fwd})))
 		}
@@ -1056,6 +1085,20 @@ func (p *pipeGen) admitCase() {
 	}
 	p.op("pipe ask %s %s - %d -", route(), q(twin), p.nextID())
 	p.op("pipe get wire %s -", q(twin))
+	if g.qtype == 1 || g.qtype == 28 {
+		// an upstream answers an alias without its terminal: the write-back chase completes the reply from the
+		// cache (in the question's own class and CD partition), later hits compose it again
+		h := gid{ls: genLabels(r), qtype: g.qtype, class: g.class, cd: vlib.Pick(r, []bool{g.cd, g.cd, !g.cd})}
+		if len(h.ls) > 0 && !oLabelsFoldEq(h.ls, g.ls) {
+			target := g.ls
+			if r.Chance(1, 4) {
+				target = flipCase(r, g.ls)
+			}
+			p.op("pipe ask %s %s %s %d - alias=%s", route(), q(h), fmtScope(vlib.Pick(r, []netip.Prefix{{}, a})), p.nextID(), nameTok(target))
+			p.op("pipe get msg %s %s", q(h), fmtScope(vlib.Pick(r, []netip.Prefix{{}, a, b})))
+			p.op("pipe get wire %s -", q(h))
+		}
+	}
 	p.op("pipe dump")
 }
 
